@@ -237,7 +237,8 @@ func main() {
 		}
 		rs := runAll(lines, 20*time.Second)
 		for i, r := range rs {
-			fmt.Printf("%s\t%s\t%s\n", strings.SplitN(lines[i], " ", 2)[0], r.impl, r.oracle)
+			impl, _ := splitAug(r.impl)
+			fmt.Printf("%s\t%s\t%s\n", strings.SplitN(lines[i], " ", 2)[0], impl, r.oracle)
 		}
 	case "run":
 		if len(os.Args) < 6 {
@@ -298,6 +299,13 @@ func main() {
 		outcomeHist := map[string]int{}
 		viol := 0
 		for i, l := range lines {
+			// a kind may hand data it measured on the implementation to the model (sizes of compressed members, ...):
+			// "<outcome> @@ <extra case argument>"
+			var aug string
+			rs[i].impl, aug = splitAug(rs[i].impl)
+			if aug != "" {
+				l += " " + aug
+			}
 			fmt.Fprintln(cw, l)
 			fmt.Fprintf(iw, "%d %s\n", i, rs[i].impl)
 			fmt.Fprintf(ow, "%d %s\n", i, rs[i].oracle)
@@ -326,6 +334,13 @@ func main() {
 		fmt.Fprintln(os.Stderr, "unknown mode", os.Args[1])
 		os.Exit(2)
 	}
+}
+
+func splitAug(impl string) (string, string) {
+	if i := strings.Index(impl, " @@ "); i >= 0 {
+		return impl[:i], impl[i+4:]
+	}
+	return impl, ""
 }
 
 // genStats is filled by generators with the distribution they actually produced.
